@@ -656,7 +656,7 @@ Lemma eval_S_binary f s n a b :
       | (ONormal vb, s2) =>
           match va, vb with
           | _, RNone => (OError, s2)
-          | RNil, RNil => (ONormal RNone, s2)
+          | RNil, RNil => (ONormal RNil, s2)
           | _, RNil => (OUnsupported "nil right operand (the implementation then leaves the left operand behind)", s2)
           | RNone, _ => (OError, s2)
           | RNil, _ => (ONormal RNone, s2)
@@ -754,7 +754,7 @@ Proof.
   - (* if true then *) intros s n a b x s1 s2 reg s3 HN HA [fa IHa] HB [fb IHb] HX [fx IHx]. exists (S (S (fa + fb + fx))). intros [|[|f]] L; try lia.
     rewrite eval_S_binary, (IHa (S f)), (IHb (S f)) by lia. rewrite HN.
     change (match RIf true, RCode x with
-            | _, RNone => (OError, s2) | RNil, RNil => (ONormal RNone, s2)
+            | _, RNone => (OError, s2) | RNil, RNil => (ONormal RNil, s2)
             | _, RNil => (OUnsupported "nil right operand (the implementation then leaves the left operand behind)", s2)
             | RNone, _ => (OError, s2) | RNil, _ => (ONormal RNone, s2)
             | _, _ => eval_binary (S f) s2 "then" (RIf true) (RCode x) (in_scope_f (S f)) plain_scope_f end)
@@ -763,7 +763,7 @@ Proof.
   - (* if then else *) intros s n a b c x y s1 s2 reg s3 HN HA [fa IHa] HB [fb IHb] HX [fx IHx]. exists (S (S (fa + fb + fx))). intros [|[|f]] L; try lia.
     rewrite eval_S_binary, (IHa (S f)), (IHb (S f)) by lia. rewrite HN.
     change (match RIf c, RArr [RCode x; RCode y] with
-            | _, RNone => (OError, s2) | RNil, RNil => (ONormal RNone, s2)
+            | _, RNone => (OError, s2) | RNil, RNil => (ONormal RNil, s2)
             | _, RNil => (OUnsupported "nil right operand (the implementation then leaves the left operand behind)", s2)
             | RNone, _ => (OError, s2) | RNil, _ => (ONormal RNone, s2)
             | _, _ => eval_binary (S f) s2 "then" (RIf c) (RArr [RCode x; RCode y]) (in_scope_f (S f)) plain_scope_f end)
